@@ -43,7 +43,9 @@ def domain_of(ex, v: Any, st: State) -> Domain:
         return Domain(inner.n, lambda i, s: Tup((T(M.IntV(i), "int"), inner.elem(i, s))), "enumerate")
     if isinstance(v, Builtin) and v.name == "dict_items_view":
         d = ex.dict_snap(v.bound, st)
-        return Domain(M.klen(d), lambda i, s: Tup((T(M.kat(d, i)), T(M.dget(d, M.kat(d, i))))), "dict.items")
+        dm = Domain(M.klen(d), lambda i, s: Tup((T(M.kat(d, i)), T(M.dget(d, M.kat(d, i))))), "dict.items")
+        dm.src_dict = d
+        return dm
     if isinstance(v, Builtin) and v.name == "range_view":
         lo, hi = v.bound
         n = z3.If(hi > lo, hi - lo, 0)
@@ -53,7 +55,9 @@ def domain_of(ex, v: Any, st: State) -> Domain:
         h = ex.refine_hint(v, st, ("list", "tuple", "str", "dict", "set"))
     if h in ("list", "tuple"):
         z = ex.seq_snap(v, st)
-        return Domain(M.llen(z), lambda i, s: T(M.lat(z, i)), h)
+        d = Domain(M.llen(z), lambda i, s: T(M.lat(z, i)), h)
+        d.src = z
+        return d
     if h == "str":
         z = ex.term(v, st)
         return Domain(z3.Length(M.sval(z)), lambda i, s: T(M.StrV(z3.SubString(M.sval(z), i, 1)), "str"), "str")
@@ -465,7 +469,10 @@ def comp_symbolic(ex, node, gen, dom: Domain, st: State, kind: str) -> List[Tupl
             exprs, _ = skolemize(list(facts) + [zt[0]], mark, j)
             disj.append(z3.And(*exprs[:-1], M.lat(R, j) == exprs[-1]))
         body = z3.Implies(inr, z3.Or(*disj))
-        sN.assume(z3.ForAll([jj], z3.substitute(body, (j, jj)), patterns=[M.lat(R, jj)]))
+        pats = [M.lat(R, jj)]
+        if getattr(dom, "src", None) is not None:
+            pats.append(M.lat(dom.src, jj))        # also fire on the source element
+        sN.assume(z3.ForAll([jj], z3.substitute(body, (j, jj)), patterns=pats))
         return results + [(sN, T(R, "list"))]
     if kind == "dict" and not has_skip:
         ex.used_assumptions.add("dict comprehension over dict.items(): keys are the (distinct) source keys in order")
@@ -476,7 +483,10 @@ def comp_symbolic(ex, node, gen, dom: Domain, st: State, kind: str) -> List[Tupl
             kz, vz = exprs[-2], exprs[-1]
             disj.append(z3.And(*exprs[:-2], M.kat(R, j) == kz, M.has(R, kz), M.dget(R, kz) == vz))
         body = z3.Implies(inr, z3.Or(*disj))
-        sN.assume(z3.ForAll([jj], z3.substitute(body, (j, jj)), patterns=[M.kat(R, jj)]))
+        pats = [M.kat(R, jj)]
+        if getattr(dom, "src_dict", None) is not None:
+            pats.append(M.kat(dom.src_dict, jj))
+        sN.assume(z3.ForAll([jj], z3.substitute(body, (j, jj)), patterns=pats))
         return results + [(sN, T(R, "dict"))]
     # filtered list / set comprehension: the trusted filter rule
     keep_conds = []
@@ -494,6 +504,14 @@ def comp_symbolic(ex, node, gen, dom: Domain, st: State, kind: str) -> List[Tupl
     ex.used_assumptions.add("filter rule for comprehensions: the result holds exactly the kept elements in order; "
                             "len(result) == len(source) iff every element is kept")
     kk = z3.Int("ck")
+    if kind in ("list", "gen") and getattr(dom, "src", None) is not None:
+        # `[x for x in xs if not is_ellipsis(x)]`: the count of kept items is nonell_count(xs)
+        jq = z3.Int("fq")
+        chk = z3.SimpleSolver()
+        chk.set("timeout", 2000)
+        chk.add(z3.Not(z3.And(g(jq) == (M.lat(dom.src, jq) != M.EllV), e(jq) == M.lat(dom.src, jq))))
+        if chk.check() == z3.unsat:
+            sN.assume(M.llen(R) == M.nonell_count(dom.src))
     if kind in ("list", "gen"):
         fi = z3.Function(f"fi_{R}", M.I, M.I)
         sN.assume(M.is_Ref(R), M.rcls(R) == ex.ct.id("list"), M.llen(R) <= z3.If(n > 0, n, 0),
